@@ -418,15 +418,15 @@ CHECKS["C40"] = dict(
 CHECKS["C42"] = dict(
     src="C42.cpp", level="model_checking",
     entries=[
-        dict(name="harness_c42_binary", quick={}, thorough={}),
-        dict(name="harness_c42_unary", quick={}, thorough={}),
+        dict(name="harness_c42_binary", quick={"R": 2}, thorough={"R": 6}),
+        dict(name="harness_c42_unary", quick={"R": 2}, thorough={"R": 6}),
         dict(name="harness_c42_strings", quick={}, thorough={}),
         dict(name="harness_c42_containers", quick={"steps": 2}, thorough={"steps": 4}),
         dict(name="harness_c42_ntheory", quick={}, thorough={}),
         dict(name="harness_c42_lambda", quick={}, thorough={}),
     ],
     anchors=["basic_add", "basic_pow", "rational_set_si", "vecbasic_get", "setbasic_insert", "mapbasicbasic_get", "ntheory_mod", "basic_parse", "integer_set_str", "lambda_real_double_visitor_init"],
-    bounds="operands built through the C constructors (integer_set_si with a symbolic long in [-4,4], rational_set_si with symbolic numerator and denominator incl. 0, symbol_set, real_double_set_d) for all 4x4 kind pairs x 8 binary operations and 31 unary functions, each compared with the C++ function (equal result, or an error code equal to the exception's code exactly when C++ throws); 15 strings through basic_parse and integer_set_str; histories of 2 (4) operations on CVecBasic / CSetBasic / CMapBasicBasic against std::vector / std::set / std::map models with symbolic indices inside the valid range; 9 ntheory functions with symbolic a in [-6,6], b in [-4,4] incl. zero divisors; lambda_real_double_visitor_init on expressions the evaluator refuses; every C call is wrapped so that an escaping C++ exception is an assertion failure; Expression operators + - * / unary - == += *= against add/sub/mul/div/neg/eq",
+    bounds="operands built through the C constructors (integer_set_si with a symbolic long in [-2,2] (thorough [-6,6]), rational_set_si with symbolic numerator in the same range and denominator in [-2,3] incl. 0 (for atan2, beta and pairs with a double operand the exact operands are enumerated as paths), symbol_set, real_double_set_d) for all 4x4 kind pairs x 8 binary operations and 31 unary functions, each compared with the C++ function (equal result, or an error code equal to the exception's code exactly when C++ throws); 15 strings through basic_parse and integer_set_str; histories of 2 (4) operations on CVecBasic / CSetBasic / CMapBasicBasic against std::vector / std::set / std::map models with symbolic indices inside the valid range; 9 ntheory functions with symbolic a in [-6,6], b in [-4,4] incl. zero divisors; lambda_real_double_visitor_init on expressions the evaluator refuses; every C call is wrapped so that an escaping C++ exception is an assertion failure; Expression operators + - * / unary - == += *= against add/sub/mul/div/neg/eq",
     outside=["indices outside the valid range and handles of the wrong type (stated preconditions of the C API, SYMENGINE_ASSERT)", "matrix functions of the C API", "MPFR/MPC/LLVM entry points (not in this build)", "basic_dumps/basic_loads"],
 )
 
